@@ -5,6 +5,7 @@ package c12
 import (
 	"bytes"
 	"fmt"
+	"os"
 	"testing"
 
 	"pgregory.net/rapid"
@@ -30,17 +31,20 @@ type Case struct {
 
 // observed is what the check saw; Classify reads it.
 type observed struct {
-	validSet      bool
-	accepted      bool // NewCodec's verdict (recorded only for invalid sets)
-	strings       int
-	validCodes    int
-	validLong     int // valid codes of length >= 3
-	invalidMulti  int // invalid codes where the specification asks for >= 2 bytes
-	truncated     int
-	repsSampled   bool
-	csrChanged    bool
-	otherVerdict  int // 0 none, 1 same codes, 2 different codes
-	stringsCapped bool
+	validSet            bool
+	accepted            bool // NewCodec's verdict (recorded only for invalid sets)
+	strings             int
+	validCodes          int
+	validLong           int // valid codes of length >= 3
+	invalidMulti        int // invalid codes where the specification asks for >= 2 bytes
+	truncated           int
+	repsSampled         bool
+	csrChanged          bool
+	merged              bool // a reported range spans more than one input range
+	calledTwice         bool // the observers were called again (history)
+	fixpointListDiffers bool
+	otherVerdict        int // 0 none, 1 same codes, 2 different codes
+	stringsCapped       bool
 }
 
 const (
@@ -267,6 +271,12 @@ func checkCase(c *Case) error {
 		return fmt.Errorf("NewCodec rejects the valid code space %v: %v", c.Ranges, err)
 	}
 
+	// a second codec from the same ranges, built before anything is observed
+	twin, err := charcode.NewCodec(toLib(c.Ranges))
+	if err != nil {
+		return fmt.Errorf("second NewCodec rejects the valid code space %v: %v", c.Ranges, err)
+	}
+
 	k := &checker{set: c.Ranges, codec: codec, obs: obs}
 	if err := k.walk(c.Seed); err != nil {
 		return err
@@ -302,6 +312,10 @@ func checkCase(c *Case) error {
 		}
 	}
 
+	if err := checkHistory(c, k, twin, rep, repSet); err != nil {
+		return err
+	}
+
 	// Equivalent against a second valid set
 	if len(c.Other) > 0 {
 		for _, r := range c.Other {
@@ -324,6 +338,170 @@ func checkCase(c *Case) error {
 				obs.otherVerdict = 2
 			}
 		}
+	}
+	return nil
+}
+
+// checkReported verifies that a reported range set is well formed, prefix
+// free and describes exactly the codes of the case.
+func checkReported(c *Case, rep charcode.CodeSpaceRange, what string) error {
+	repSet := fromLib(rep)
+	for _, r := range repSet {
+		if !r.WellFormed() {
+			return fmt.Errorf("%s of %v contains the malformed range %v (whole list %v)", what, c.Ranges, r, repSet)
+		}
+	}
+	if !repSet.Valid() {
+		return fmt.Errorf("%s of %v is %v, which is not prefix free", what, c.Ranges, repSet)
+	}
+	if same, w := cmapmodel.SameCodes(c.Ranges, repSet); !same {
+		return fmt.Errorf("%s of %v is %v; <%x> is a code of only one of them", what, c.Ranges, repSet, w)
+	}
+	return nil
+}
+
+func deepCopy(s charcode.CodeSpaceRange) charcode.CodeSpaceRange {
+	return toLib(fromLib(s))
+}
+
+// checkHistory treats the codec as an object with a history: every observer
+// is called again, interleaved with the others, and must keep giving the
+// answers of the unchanged code space.  first is the result of the first
+// CodeSpaceRange() call (already verified against the model).
+func checkHistory(c *Case, k *checker, twin *charcode.Codec, first charcode.CodeSpaceRange, firstSet cmapmodel.Set) error {
+	obs := k.obs
+	codec := k.codec
+	want := flat(first)
+	keep := deepCopy(first)
+
+	// a reported range which no single input range contains: leaves were merged
+	for _, r := range firstSet {
+		contained := false
+		for _, q := range c.Ranges {
+			if q.Len() != r.Len() {
+				continue
+			}
+			inside := true
+			for i := range r.Low {
+				if r.Low[i] < q.Low[i] || r.High[i] > q.High[i] {
+					inside = false
+				}
+			}
+			if inside {
+				contained = true
+			}
+		}
+		if !contained {
+			obs.merged = true
+		}
+	}
+
+	// a few strings for the calls in between: the bounds of the ranges, with
+	// a tail, and their neighbours
+	var samples [][]byte
+	for i, r := range c.Ranges {
+		if i >= 3 {
+			break
+		}
+		samples = append(samples, append(append([]byte(nil), r.Low...), 0x00), append(append([]byte(nil), r.High...), 0xFF))
+		x := append([]byte(nil), r.High...)
+		x[len(x)-1]++
+		samples = append(samples, x, x[:1])
+	}
+	decodeSome := func() error {
+		for _, s := range samples {
+			if err := k.checkString(s); err != nil {
+				return err
+			}
+		}
+		return nil
+	}
+
+	if err := decodeSome(); err != nil {
+		return err
+	}
+	second := codec.CodeSpaceRange()
+	if err := checkReported(c, second, "the second CodeSpaceRange()"); err != nil {
+		return err
+	}
+	if !bytes.Equal(flat(second), want) {
+		return fmt.Errorf("CodeSpaceRange() of %v: first call %v, second call %v", c.Ranges, firstSet, fromLib(second))
+	}
+
+	// the results belong to the caller: overwrite the first one completely
+	for i := range first {
+		for j := range first[i].Low {
+			first[i].Low[j] = 0xEE
+			first[i].High[j] = 0x11
+		}
+	}
+	for i := range first {
+		first[i] = charcode.Range{Low: []byte{0xFF, 0xFF, 0xFF, 0xFF, 0xFF}, High: []byte{0x00}}
+	}
+	if !bytes.Equal(flat(second), want) {
+		return fmt.Errorf("CodeSpaceRange() of %v: the results of two calls share memory", c.Ranges)
+	}
+	if err := decodeSome(); err != nil {
+		return fmt.Errorf("after the caller overwrote a CodeSpaceRange() result: %v", err)
+	}
+	third := codec.CodeSpaceRange()
+	if err := checkReported(c, third, "the third CodeSpaceRange() (after the caller overwrote the first result)"); err != nil {
+		return err
+	}
+	if !bytes.Equal(flat(third), want) {
+		return fmt.Errorf("CodeSpaceRange() of %v: first call %v, third call (after the caller overwrote the first result) %v", c.Ranges, firstSet, fromLib(third))
+	}
+	// ... and shorten the third one
+	if len(third) > 0 {
+		third = third[:len(third)-1]
+		_ = third
+	}
+	obs.calledTwice = true
+
+	// the twin, built from the same ranges before anything was observed
+	twinRep := twin.CodeSpaceRange()
+	if err := checkReported(c, twinRep, "CodeSpaceRange() of a second codec for the same ranges"); err != nil {
+		return err
+	}
+	if !bytes.Equal(flat(twinRep), want) {
+		return fmt.Errorf("two codecs built from %v report %v and %v", c.Ranges, firstSet, fromLib(twinRep))
+	}
+	kt := &checker{set: c.Ranges, codec: twin, obs: obs}
+	for _, s := range samples {
+		if err := kt.checkString(s); err != nil {
+			return fmt.Errorf("second codec for the same ranges: %v", err)
+		}
+	}
+	if again := twin.CodeSpaceRange(); !bytes.Equal(flat(again), want) {
+		return fmt.Errorf("second codec for %v: first call %v, second call %v", c.Ranges, firstSet, fromLib(again))
+	}
+
+	// a codec built from the reported set reports the same codes again, on
+	// every call
+	rebuilt, err := charcode.NewCodec(deepCopy(keep))
+	if err != nil {
+		return fmt.Errorf("NewCodec rejects %v, reported by CodeSpaceRange() for %v: %v", firstSet, c.Ranges, err)
+	}
+	for call := 1; call <= 2; call++ {
+		rr := rebuilt.CodeSpaceRange()
+		if err := checkReported(c, rr, fmt.Sprintf("CodeSpaceRange() (call %d) of a codec built from the reported set %v", call, firstSet)); err != nil {
+			return err
+		}
+		if !bytes.Equal(flat(rr), want) {
+			// not a violation: the statement does not ask for a canonical list
+			obs.fixpointListDiffers = true
+			if os.Getenv("C12_FIXPOINT_STRICT") != "" { // for looking at examples
+				return fmt.Errorf("codec for %v reports %v; a codec built from that reports %v", c.Ranges, firstSet, fromLib(rr))
+			}
+		}
+	}
+
+	// the original codec once more, after all of this
+	if err := decodeSome(); err != nil {
+		return err
+	}
+	if last := codec.CodeSpaceRange(); !bytes.Equal(flat(last), want) {
+		return fmt.Errorf("CodeSpaceRange() of %v: first call %v, last call %v", c.Ranges, firstSet, fromLib(last))
 	}
 	return nil
 }
@@ -407,6 +585,15 @@ func classify(c *Case) (bool, []string) {
 	}
 	if o.csrChanged {
 		cls = append(cls, "csr-differs-from-input")
+	}
+	if o.calledTwice {
+		cls = append(cls, "codespacerange-called-twice")
+		if o.merged {
+			cls = append(cls, "codespacerange-called-twice-after-merge")
+		}
+	}
+	if o.fixpointListDiffers {
+		cls = append(cls, "rebuilt-codec-lists-ranges-differently")
 	}
 	switch o.otherVerdict {
 	case 1:
@@ -494,7 +681,67 @@ var randomProp = &vt.Prop[Case]{
 	},
 }
 
-func init() { vt.Register(randomProp) }
+// genMergeable draws a valid set in which ranges were cut into adjacent
+// pieces (so that CodeSpaceRange() has leaves to merge), sometimes with one
+// piece removed, e.g. <00>-<3F>, <40>-<7F>, <90>-<FF>.
+func genMergeable(t *rapid.T) cmapmodel.Set {
+	set := cmapmodel.GenSet(t, cmapmodel.GenOpts{MaxRanges: 3, MaxLen: 4, ValidOnly: true}).Clone()
+	for n := rapid.IntRange(1, 4).Draw(t, "cuts"); n > 0; n-- {
+		i := rapid.IntRange(0, len(set)-1).Draw(t, "cut-range")
+		p := rapid.IntRange(0, set[i].Len()-1).Draw(t, "cut-pos")
+		if rapid.Bool().Draw(t, "cut-last") {
+			p = set[i].Len() - 1
+		}
+		if set[i].Low[p] >= set[i].High[p] {
+			continue
+		}
+		m := set[i].Low[p] + byte(rapid.IntRange(0, int(set[i].High[p]-set[i].Low[p])-1).Draw(t, "cut-at"))
+		second := cmapmodel.Set{set[i]}.Clone()[0]
+		set[i].High[p] = m
+		second.Low[p] = m + 1
+		set = append(set, second)
+	}
+	if len(set) > 2 && rapid.IntRange(0, 2).Draw(t, "drop") == 0 {
+		j := rapid.IntRange(0, len(set)-1).Draw(t, "drop-which")
+		set = append(set[:j], set[j+1:]...)
+	}
+	perm := rapid.Permutation(func() []int {
+		ix := make([]int, len(set))
+		for i := range ix {
+			ix[i] = i
+		}
+		return ix
+	}()).Draw(t, "order")
+	out := make(cmapmodel.Set, len(set))
+	for i, j := range perm {
+		out[i] = set[j]
+	}
+	return out
+}
+
+// historyProp runs the same check on sets made for merging.
+var historyProp = &vt.Prop[Case]{
+	Property: property,
+	Kind:     "c12-history",
+	Gen: func(t *rapid.T) Case {
+		var c Case
+		c.Ranges = genMergeable(t)
+		c.Seed = rapid.Uint64().Draw(t, "seed")
+		return c
+	},
+	Check:    checkCase,
+	Classify: classify,
+	Render:   randomProp.Render,
+}
+
+func init() {
+	vt.Register(randomProp)
+	vt.Register(historyProp)
+}
+
+func TestHistory(t *testing.T) {
+	historyProp.Run(t, vt.NewStats(property, "history"))
+}
 
 func TestRandom(t *testing.T) {
 	randomProp.Run(t, vt.NewStats(property, "random"))
